@@ -67,3 +67,5 @@ func vBaseAlign12()              { panic("intrinsic") }
 func vTime(name string) time.Time  { panic("intrinsic") }
 func vTimeNs(t time.Time) int64    { panic("intrinsic") }
 func vLastNow() int64              { panic("intrinsic") }
+func vNoIOFaults()                 { panic("intrinsic") }
+func vIOSize(n int64)              { panic("intrinsic") }
